@@ -84,6 +84,10 @@ def gen(rng, tier):
         spec["cont_twin"] = {"k": k, "extra": sorted(set(k + rng.randint(0, 8) for _ in range(rng.randint(1, 3))))}
         if spec["cfg"].get("rule") == 4:
             spec["cfg"]["rule"] = 5
+    elif twin and not random_twin and spec["cfg"].get("absence") and rng.random() < 0.15:
+        # further absence steps are inserted into the result (around a step that is registered already) before all are deleted
+        a = rng.choice(spec["cfg"]["absence"])
+        spec["twin_insert"] = sorted(set([max(0, a - rng.randint(0, 2)), a + 1] + ([rng.randint(0, 12)] if rng.random() < 0.4 else [])))
     return spec
 
 
@@ -98,10 +102,11 @@ def extra_candidates(spec):
         c = dict(spec)
         c.pop("backward_twin")
         yield c
-    if spec.get("cont_twin") is not None:
-        c = dict(spec)
-        c.pop("cont_twin")
-        yield c
+    for k_ in ("cont_twin", "twin_insert"):
+        if spec.get(k_) is not None:
+            c = dict(spec)
+            c.pop(k_)
+            yield c
     if spec.get("random_twin"):
         # fewer uncertain skills
         import copy
@@ -327,6 +332,12 @@ def run(spec):
         scen.setup_run(spec.get("seed", 0))
         tb = scen.run_forward(spec["model"], spec.get("ranks"), cfgB, want_snap=False, **({"backward": bwt} if bwt else {}))
         if ta.out.ok and tb.out.ok:
+            ti = spec.get("twin_insert") if (ct is None and bwt is None) else None
+            if ti:
+                res.count("twin_with_inserted_steps")
+                oi = D.call(lambda: ta.project.insert_absence_time_list(list(ti)))
+                if not oi.ok:
+                    ti = None  # (C18's business)
             n_before = ta.project.time
             o = D.call(lambda: ta.project.remove_absence_time_list())
             res.count("twin_compared")
@@ -353,8 +364,10 @@ def run(spec):
                         cause += ".backward"
                     if spec.get("random_twin") and not cause.startswith("FIFO_counts"):
                         cause += ".uncertain_progress_fixed_seed"
-                    if ct is not None:
+                    if ct is not None and not cause.startswith("FIFO_counts"):
                         cause += ".absence_run_in_two_legs"
+                    if ti and not cause.startswith("FIFO_counts"):
+                        cause += ".steps_inserted_before_removal"
                     res.add("twin", "C10.twin_differs." + cause,
                             "simulate(absence=%s)+remove_absence_time_list() differs from simulate() in %s; first at %s: %r vs %r"
                             % (L, sorted(attrs), diff[0], diff[1], diff[2]), None)
